@@ -40,6 +40,9 @@ func (c *Client) Ping(ctx context.Context) (err error) {
 		b.Encode(proto.ClientCodePing)
 	})
 	if err := c.flush(ctx); err != nil {
+		// Ping was not sent (e.g. context is already done) and should not
+		// be prepended to the next request.
+		c.writer.Reset()
 		return errors.Wrap(err, "flush")
 	}
 	p, err := c.packet(ctx)
